@@ -582,8 +582,10 @@ def check_property(prop, jobs, tier, level, explanation, trusted, seed=0, quiet=
                 errors.append("%s: vacuous - no obligations generated for %s" % (j.name, prop))
             if j.kind == "K1" and j.loop_contracts and not any("loop_invariant_step" in n or "loop invariant" in d.lower() for n, d, s in r.obligations):
                 errors.append("%s: loop contract silently dropped (no loop_invariant_step obligation)" % j.name)
-            if len(samples) < 6 and mine:
-                samples.append({"job": j.name, "kind": j.kind, "obligation": mine[-1][0], "description": mine[-1][1], "status": mine[-1][2], "case": j.case})
+            if len(samples) < 8 and mine:
+                pick = [o for o in mine if ".assertion." in o[0] or "postcondition" in o[0] or "loop_invariant" in o[0]] or mine
+                samples.append({"job": j.name, "kind": j.kind, "obligation": pick[-1][0], "description": pick[-1][1], "status": pick[-1][2], "case": j.case,
+                                "back_end": "z3 (SMT)" if "--z3" in j.cbmc else "minisat2 (SAT)", "solver_s": round(r.solver_seconds, 2)})
             failed = [o for o in mine if o[2] == "FAILURE"]
             for (rx, why) in j.ignore:
                 failed = [o for o in failed if not re.search(rx, "%s :: %s" % (o[0], o[1]))]
@@ -706,7 +708,8 @@ def check_property(prop, jobs, tier, level, explanation, trusted, seed=0, quiet=
         groups = {}
         for r in results:
             g = groups.setdefault(r.job.group, {"kind": r.job.kind, "cases": 0, "obligations": 0, "discharged": 0, "solver_s": 0.0,
-                                                "functions": r.job.functions, "bound": r.job.bound})
+                                                "functions": r.job.functions, "bound": r.job.bound,
+                                                "back_end": "z3 (SMT)" if "--z3" in r.job.cbmc else "minisat2 (SAT)"})
             g["cases"] += 1
             mine = [(n, d, s) for (n, d, s) in r.obligations if prop in owner_props(r.job, d)]
             g["obligations"] += len(mine)
